@@ -54,11 +54,85 @@ enum Ext {
 #[derive(Default)]
 struct UrlFn {
     acc: Option<String>,
+    ser: Option<String>,
     url_var: Option<String>,
     base: String,
     pushes: Vec<Push>,
     extends: Vec<Ext>,
     state: String,
+}
+
+thread_local! {
+    /// `const NAME: &str = "lit";` items of src/code.rs (any nesting level)
+    static STR_CONSTS: std::cell::RefCell<std::collections::BTreeMap<String, String>> = Default::default();
+}
+
+fn collect_str_consts(f: &syn::File) {
+    struct C(std::collections::BTreeMap<String, String>);
+    impl<'ast> syn::visit::Visit<'ast> for C {
+        fn visit_item_const(&mut self, c: &'ast syn::ItemConst) {
+            if let Some(l) = str_lit(&c.expr) {
+                self.0.insert(c.ident.to_string(), l);
+            }
+        }
+        fn visit_impl_item_const(&mut self, c: &'ast syn::ImplItemConst) {
+            if let Some(l) = str_lit(&c.expr) {
+                self.0.insert(c.ident.to_string(), l);
+            }
+        }
+    }
+    let mut c = C(Default::default());
+    syn::visit::Visit::visit_file(&mut c, f);
+    STR_CONSTS.with(|m| *m.borrow_mut() = c.0);
+}
+
+fn const_str(e: &syn::Expr) -> Option<String> {
+    let name = last_segment(e)?;
+    STR_CONSTS.with(|m| m.borrow().get(&name).cloned())
+}
+
+/// Conversions between string-like types change types, not text: `&E`, `*E`, `(**E)`, `E.as_str()`, `E.as_ref()`,
+/// `E.to_owned()`, `E.to_string()`, `E.into()`, `E.clone()`, `E.borrow()`, `E.deref()`, `String::from(E)`,
+/// `Cow::Owned(E)`, `Cow::Borrowed(E)`, `Cow::from(E)`, `From::from(E)`, `Into::into(E)` → E;  an identity `.map(..)`
+/// (`.map(Cow::Owned)`, `.map(Into::into)`, `.map(|x| <peels to x>)`) and trailing `.iter()`, `.into_iter()`, `.cloned()`,
+/// `.copied()` are dropped as well (they change how a sequence is traversed, not its elements or their order).
+fn peel(e: &syn::Expr) -> syn::Expr {
+    const NULLARY: &[&str] = &["as_str", "as_ref", "to_owned", "to_string", "into", "clone", "borrow", "deref", "iter", "into_iter", "cloned", "copied"];
+    let e = strip_ref(e);
+    match e {
+        syn::Expr::MethodCall(m) if m.args.is_empty() && NULLARY.contains(&m.method.to_string().as_str()) => peel(&m.receiver),
+        syn::Expr::MethodCall(m) if m.method == "map" && m.args.len() == 1 && identity_fn(&m.args[0]) => peel(&m.receiver),
+        syn::Expr::Call(c) if c.args.len() == 1 && conv_path(&c.func) => peel(&c.args[0]),
+        syn::Expr::Tuple(t) => {
+            let mut t2 = t.clone();
+            for el in t2.elems.iter_mut() {
+                *el = peel(el);
+            }
+            syn::Expr::Tuple(t2)
+        }
+        other => other.clone(),
+    }
+}
+
+fn conv_path(f: &syn::Expr) -> bool {
+    match path_segments(f) {
+        Some(segs) => {
+            let v: Vec<&str> = segs.iter().map(|s| s.as_str()).collect();
+            matches!(v.as_slice(), [.., "String", "from"] | [.., "Cow", "Owned"] | [.., "Cow", "Borrowed"] | [.., "Cow", "from"] | [.., "From", "from"] | [.., "Into", "into"] | [.., "ToOwned", "to_owned"] | [.., "ToString", "to_string"])
+        }
+        None => false,
+    }
+}
+
+/// a function that returns its argument up to a text conversion
+fn identity_fn(f: &syn::Expr) -> bool {
+    if conv_path(f) {
+        return true;
+    }
+    if let Some((b, body)) = closure1(f) {
+        return ident_of(&peel(body)).as_deref() == Some(b.as_str());
+    }
+    false
 }
 
 /// `S.iter().map(|s| M).collect[::<..>]().join("lit")`
@@ -76,8 +150,8 @@ fn join_expr(env: &Env, e: &syn::Expr) -> Option<Val> {
     }
     let sep = str_lit(&calls[3].args[0])?;
     let (b, body) = closure1(&calls[1].args[0])?;
-    let elem = canon(strip_ref(&env.with_rename(&b, "it").resolve(body)));
-    Some(Val::Join { source: canon(strip_ref(root)), elem, sep })
+    let elem = canon(&peel(&env.with_rename(&b, "it").resolve(body)));
+    Some(Val::Join { source: canon(&peel(root)), elem, sep })
 }
 
 fn value(env: &Env, e: &syn::Expr) -> Val {
@@ -89,13 +163,17 @@ fn value(env: &Env, e: &syn::Expr) -> Val {
     if let Some(j) = join_expr(env, r) {
         return j;
     }
-    Val::Src(canon(r))
+    let p = peel(r);
+    if let Some(l) = str_lit(&p).or_else(|| const_str(&p)) {
+        return Val::Lit(l);
+    }
+    Val::Src(canon(&p))
 }
 
 fn pair(item: &str, env: &Env, e: &syn::Expr) -> R<(String, Val)> {
     if let syn::Expr::Tuple(t) = strip(e) {
         if t.elems.len() == 2 {
-            if let Some(name) = str_lit(&t.elems[0]) {
+            if let Some(name) = str_lit(&t.elems[0]).or_else(|| const_str(&env.resolve(&t.elems[0]))) {
                 return Ok((name, value(env, &t.elems[1])));
             }
         }
@@ -103,39 +181,75 @@ fn pair(item: &str, env: &Env, e: &syn::Expr) -> R<(String, Val)> {
     fail(F, item, format!("a pair `(\"<name literal>\", <value>)`, found `{}`", canon(e)))
 }
 
-fn push_call<'a>(acc: &str, e: &'a syn::Expr) -> Option<&'a syn::Expr> {
+/// `P.push((K, V))` on the pair vector or `Q.append_pair(K, V)` on the query serializer → (K, V)
+fn push_call(u: &UrlFn, e: &syn::Expr) -> Option<(syn::Expr, syn::Expr, bool)> {
     if let syn::Expr::MethodCall(m) = strip(e) {
-        if m.method == "push" && m.args.len() == 1 && ident_of(&m.receiver).as_deref() == Some(acc) {
-            return Some(&m.args[0]);
+        let recv = ident_of(strip_ref(&m.receiver));
+        if m.method == "push" && m.args.len() == 1 && recv.is_some() && recv == u.acc {
+            if let syn::Expr::Tuple(t) = strip(&m.args[0]) {
+                if t.elems.len() == 2 {
+                    return Some((t.elems[0].clone(), t.elems[1].clone(), false));
+                }
+            }
+        }
+        if m.method == "append_pair" && m.args.len() == 2 && recv.is_some() && recv == u.ser {
+            return Some((m.args[0].clone(), m.args[1].clone(), true));
         }
     }
     None
 }
 
-/// the body of a conditional: only `P.push(..);` statements (and names)
-fn cond_pushes(item: &str, env: &Env, acc: &str, block: &syn::Block, cond: impl Fn() -> Cond) -> R<Vec<Push>> {
+fn pair2(item: &str, env: &Env, k: &syn::Expr, v: &syn::Expr) -> R<(String, Val)> {
+    match str_lit(k).or_else(|| const_str(&env.resolve(k))) {
+        Some(name) => Ok((name, value(env, v))),
+        None => fail(F, item, format!("a parameter name that is a string literal (or a `const`), found `{}`", canon(k))),
+    }
+}
+
+/// record one push; direct appends to the serializer stand for a pair vector that is appended right here
+fn record_push(item: &str, env: &Env, u: &mut UrlFn, k: &syn::Expr, v: &syn::Expr, direct: bool, cond: Cond) -> R<()> {
+    if direct {
+        if u.acc.is_some() {
+            return fail(F, item, "either a pair vector or direct `append_pair` calls, not both");
+        }
+        if !u.extends.iter().any(|x| matches!(x, Ext::Pairs)) {
+            u.extends.push(Ext::Pairs);
+        }
+        if !matches!(u.extends.last(), Some(Ext::Pairs)) {
+            return fail(F, item, "every library parameter to be appended before the caller's extra parameters");
+        }
+    } else if u.extends.iter().any(|x| matches!(x, Ext::Pairs)) {
+        return fail(F, item, "every push to precede the `extend_pairs` that appends the pair vector");
+    }
+    let (name, value) = pair2(item, env, k, v)?;
+    u.pushes.push(Push { name, value, cond });
+    Ok(())
+}
+
+/// the body of a conditional: only pushes (and names)
+fn cond_pushes(item: &str, env: &Env, u: &mut UrlFn, block: &syn::Block, cond: &dyn Fn() -> Cond) -> R<()> {
     let mut env = env.clone();
-    let mut v = Vec::new();
+    let mut n = 0;
     for st in &block.stmts {
         match st {
             syn::Stmt::Local(l) => match plain_let(l) {
-                Some((n, false, e)) => env.bind(&n, e),
+                Some((x, false, e)) => env.bind(&x, e),
                 _ => return fail(F, item, format!("a plain `let` inside a conditional push, found `{}`", canon(st))),
             },
-            syn::Stmt::Expr(e, _) => match push_call(acc, e) {
-                Some(t) => {
-                    let (name, value) = pair(item, &env, t)?;
-                    v.push(Push { name, value, cond: cond() });
+            syn::Stmt::Expr(e, _) => match push_call(u, e) {
+                Some((k, v, direct)) => {
+                    record_push(item, &env, u, &k, &v, direct, cond())?;
+                    n += 1;
                 }
-                None => return fail(F, item, format!("`{acc}.push((..))` inside a conditional, found `{}`", canon(e))),
+                None => return fail(F, item, format!("a push inside a conditional, found `{}`", canon(e))),
             },
-            other => return fail(F, item, format!("`{acc}.push((..))` inside a conditional, found `{}`", canon(other))),
+            other => return fail(F, item, format!("a push inside a conditional, found `{}`", canon(other))),
         }
     }
-    if v.is_empty() {
+    if n == 0 {
         return fail(F, item, "at least one push inside the conditional");
     }
-    Ok(v)
+    Ok(())
 }
 
 /// `|&(k, v)| (k, v)` and friends: a closure that returns its tuple parameter unchanged
@@ -144,18 +258,9 @@ fn identity_pair_closure(e: &syn::Expr) -> bool {
         if c.inputs.len() != 1 {
             return false;
         }
-        fn tuple_binders(p: &syn::Pat) -> Option<Vec<String>> {
-            match p {
-                syn::Pat::Reference(r) => tuple_binders(&r.pat),
-                syn::Pat::Paren(q) => tuple_binders(&q.pat),
-                syn::Pat::Type(t) => tuple_binders(&t.pat),
-                syn::Pat::Tuple(t) => t.elems.iter().map(pat_binder).collect(),
-                _ => None,
-            }
-        }
         if let Some(bs) = tuple_binders(&c.inputs[0]) {
             if let syn::Expr::Tuple(t) = block_expr(&c.body) {
-                let out: Option<Vec<String>> = t.elems.iter().map(|x| ident_of(strip_ref(x))).collect();
+                let out: Option<Vec<String>> = t.elems.iter().map(|x| ident_of(&peel(x))).collect();
                 return out.as_ref() == Some(&bs);
             }
         }
@@ -163,25 +268,60 @@ fn identity_pair_closure(e: &syn::Expr) -> bool {
     false
 }
 
+fn tuple_binders(p: &syn::Pat) -> Option<Vec<String>> {
+    match p {
+        syn::Pat::Reference(r) => tuple_binders(&r.pat),
+        syn::Pat::Paren(q) => tuple_binders(&q.pat),
+        syn::Pat::Type(t) => tuple_binders(&t.pat),
+        syn::Pat::Tuple(t) => t.elems.iter().map(pat_binder).collect(),
+        _ => None,
+    }
+}
+
+/// what an `extend_pairs(X)` (or a `for (k, v) in X` loop that appends every pair) adds
 fn extend_arg(env: &Env, acc: Option<&str>, e: &syn::Expr) -> Ext {
     let r = env.resolve(e);
-    let (root, calls) = chain(strip_ref(&r));
-    if let (Some(acc), Some(id)) = (acc, ident_of(strip_ref(root))) {
-        if id == acc {
-            let ok = calls.iter().all(|c| match c.method.to_string().as_str() {
-                "iter" | "into_iter" | "cloned" | "copied" => c.args.is_empty(),
-                "map" => c.args.len() == 1 && identity_pair_closure(&c.args[0]),
-                _ => false,
-            });
-            if ok {
-                return Ext::Pairs;
+    // drop identity maps over pairs, then text/traversal conversions
+    let mut cur: syn::Expr = strip_ref(&r).clone();
+    loop {
+        let next = match &cur {
+            syn::Expr::MethodCall(m) if m.method == "map" && m.args.len() == 1 && identity_pair_closure(&m.args[0]) => Some(strip_ref(&m.receiver).clone()),
+            _ => None,
+        };
+        match next {
+            Some(n) => cur = n,
+            None => {
+                let p = peel(&cur);
+                if canon(&p) == canon(&cur) {
+                    break;
+                }
+                cur = p;
             }
         }
     }
-    Ext::Expr(canon(strip_ref(&r)))
+    if let (Some(acc), Some(id)) = (acc, ident_of(&cur)) {
+        if id == acc {
+            return Ext::Pairs;
+        }
+    }
+    Ext::Expr(canon(&cur))
 }
 
-/// statements of `url()` (blocks bound by `let` are read in line); returns the tail expression
+/// the calls of a chain rooted in the query serializer: `U.query_pairs_mut()` or the variable bound to it
+fn serializer_chain<'a>(u: &UrlFn, e: &'a syn::Expr) -> Option<Vec<&'a syn::ExprMethodCall>> {
+    let (root, calls) = chain(e);
+    let id = ident_of(strip_ref(root))?;
+    if Some(&id) == u.ser.as_ref() && !calls.is_empty() {
+        return Some(calls);
+    }
+    // `U.query_pairs_mut()` is the first call of the chain on the URL variable
+    if Some(&id) == u.url_var.as_ref() && calls.len() >= 2 && calls[0].method == "query_pairs_mut" && calls[0].args.is_empty() {
+        return Some(calls[1..].to_vec());
+    }
+    None
+}
+
+/// statements of `url()` (blocks are read in line); returns the tail expression
 fn url_stmts(item: &str, env: &mut Env, u: &mut UrlFn, stmts: &[syn::Stmt]) -> R<Option<syn::Expr>> {
     let n = stmts.len();
     for (i, st) in stmts.iter().enumerate() {
@@ -205,60 +345,64 @@ fn url_stmts(item: &str, env: &mut Env, u: &mut UrlFn, stmts: &[syn::Stmt]) -> R
                         continue;
                     }
                 }
+                // `let [mut] Q = U.query_pairs_mut();`
+                if let syn::Expr::MethodCall(m) = strip(init) {
+                    if m.method == "query_pairs_mut" && m.args.is_empty() && ident_of(strip_ref(&m.receiver)).is_some() && ident_of(strip_ref(&m.receiver)) == u.url_var {
+                        u.ser = Some(name);
+                        continue;
+                    }
+                }
                 if !is_mut {
                     env.bind(&name, init);
                 } else if let Some(elems) = vec_macro(init) {
                     if u.acc.is_some() {
                         return fail(F, item, "exactly one `let mut <pairs> = vec![..]`");
                     }
+                    u.acc = Some(name);
                     for e in &elems {
-                        let (pname, value) = pair(item, env, e)?;
-                        u.pushes.push(Push { name: pname, value, cond: Cond::Always });
+                        match strip(e) {
+                            syn::Expr::Tuple(t) if t.elems.len() == 2 => record_push(item, env, u, &t.elems[0], &t.elems[1], false, Cond::Always)?,
+                            _ => return fail(F, item, format!("a pair `(\"<name>\", <value>)`, found `{}`", canon(e))),
+                        }
+                    }
+                } else if is_vec_new(init) {
+                    if u.acc.is_some() {
+                        return fail(F, item, "exactly one pair vector");
                     }
                     u.acc = Some(name);
                 } else {
                     if u.url_var.is_some() {
                         return fail(F, item, format!("exactly one mutable URL variable, found a second `let mut {name}`"));
                     }
-                    u.base = canon(strip_ref(&env.resolve(init)));
+                    u.base = canon(&peel(&env.resolve(init)));
                     u.url_var = Some(name);
                 }
             }
             syn::Stmt::Expr(e, semi) => {
-                if semi.is_none() && i + 1 == n {
-                    return Ok(Some(env.resolve(e)));
-                }
-                let acc = u.acc.clone();
-                if let Some(acc) = &acc {
-                    if let Some(t) = push_call(acc, e) {
-                        if u.extends.iter().any(|x| matches!(x, Ext::Pairs)) {
-                            return fail(F, item, "every push to precede the `extend_pairs` that appends the pair vector");
-                        }
-                        let (name, value) = pair(item, env, t)?;
-                        u.pushes.push(Push { name, value, cond: Cond::Always });
+                // a nested block statement is read in line
+                if let syn::Expr::Block(b) = strip(e) {
+                    if b.label.is_none() && (semi.is_some() || i + 1 < n || b.block.stmts.last().map(|s| !matches!(s, syn::Stmt::Expr(_, None))).unwrap_or(true)) {
+                        let mut inner = env.clone();
+                        url_stmts(item, &mut inner, u, &b.block.stmts)?;
                         continue;
                     }
                 }
+                if let Some((k, v, direct)) = push_call(u, e) {
+                    record_push(item, env, u, &k, &v, direct, Cond::Always)?;
+                    continue;
+                }
                 if let syn::Expr::If(ifx) = strip(e) {
-                    let acc = match &acc {
-                        Some(a) => a.clone(),
-                        None => return fail(F, item, "the pair vector to be declared before the first conditional push"),
-                    };
                     if ifx.else_branch.is_some() {
                         return fail(F, item, "a conditional push without `else`");
-                    }
-                    if u.extends.iter().any(|x| matches!(x, Ext::Pairs)) {
-                        return fail(F, item, "every push to precede the `extend_pairs` that appends the pair vector");
                     }
                     if let syn::Expr::Let(l) = strip(&ifx.cond) {
                         let binder = match pat_some(&l.pat) {
                             Some(b) => b,
                             None => return fail(F, item, format!("`if let Some([ref] x) = E`, found pattern `{}`", canon(&l.pat))),
                         };
-                        let scrut = canon(strip_ref(&env.resolve(&l.expr)));
+                        let scrut = canon(&peel(&env.resolve(&l.expr)));
                         let inner = env.with_rename(&binder, "it");
-                        let mut ps = cond_pushes(item, &inner, &acc, &ifx.then_branch, || Cond::IfSome(scrut.clone()))?;
-                        u.pushes.append(&mut ps);
+                        cond_pushes(item, &inner, u, &ifx.then_branch, &|| Cond::IfSome(scrut.clone()))?;
                         continue;
                     }
                     // `!E.is_empty()`
@@ -268,8 +412,7 @@ fn url_stmts(item: &str, env: &mut Env, u: &mut UrlFn, stmts: &[syn::Stmt]) -> R
                                 if m.method == "is_empty" && m.args.is_empty() {
                                     let recv = m.receiver.clone();
                                     let env2 = env.clone();
-                                    let mut ps = cond_pushes(item, env, &acc, &ifx.then_branch, || Cond::IfNonEmpty(value(&env2, &recv)))?;
-                                    u.pushes.append(&mut ps);
+                                    cond_pushes(item, env, u, &ifx.then_branch, &|| Cond::IfNonEmpty(value(&env2, &recv)))?;
                                     continue;
                                 }
                             }
@@ -277,24 +420,54 @@ fn url_stmts(item: &str, env: &mut Env, u: &mut UrlFn, stmts: &[syn::Stmt]) -> R
                     }
                     return fail(F, item, format!("`if let Some(x) = E` or `if !E.is_empty()`, found condition `{}`", canon(&ifx.cond)));
                 }
-                // U.query_pairs_mut().extend_pairs(X)
-                if let syn::Expr::MethodCall(m) = strip(e) {
-                    if m.method == "extend_pairs" && m.args.len() == 1 {
-                        if let syn::Expr::MethodCall(q) = strip(&m.receiver) {
-                            if q.method == "query_pairs_mut" && q.args.is_empty() && ident_of(strip_ref(&q.receiver)) == u.url_var {
-                                let x = extend_arg(env, u.acc.as_deref(), &m.args[0]);
-                                u.extends.push(x);
-                                continue;
+                // `for (k, v) in X { Q.append_pair(k, v); }` / `{ P.push((k, v)); }`: every pair of X, in order
+                if let syn::Expr::ForLoop(fl) = strip(e) {
+                    if let Some(bs) = tuple_binders(&fl.pat) {
+                        if let [syn::Stmt::Expr(body, _)] = fl.body.stmts.as_slice() {
+                            if let Some((k, v, direct)) = push_call(u, body) {
+                                let through = ident_of(&peel(&k)).as_ref() == bs.first() && ident_of(&peel(&v)).as_ref() == bs.get(1) && bs.len() == 2;
+                                if through && direct {
+                                    let x = extend_arg(env, None, &fl.expr);
+                                    u.extends.push(x);
+                                    continue;
+                                }
                             }
                         }
                     }
+                    return fail(F, item, format!("a loop that appends every pair of a sequence unchanged, found `{}`", canon(e)));
                 }
-                return fail(F, item, format!("a push, a conditional push or `<url>.query_pairs_mut().extend_pairs(..)`, found `{}`", canon(e)));
+                // calls on the serializer: `.extend_pairs(X)`, `.append_pair(K, V)`, `.finish()`
+                if let Some(calls) = serializer_chain(u, e) {
+                    for c in calls {
+                        match c.method.to_string().as_str() {
+                            "extend_pairs" if c.args.len() == 1 => {
+                                let x = extend_arg(env, u.acc.as_deref(), &c.args[0]);
+                                u.extends.push(x);
+                            }
+                            "append_pair" if c.args.len() == 2 => record_push(item, env, u, &c.args[0], &c.args[1], true, Cond::Always)?,
+                            "finish" if c.args.is_empty() => {}
+                            other => return fail(F, item, format!("`extend_pairs` / `append_pair` / `finish` on the query serializer, found `.{other}(..)`")),
+                        }
+                    }
+                    continue;
+                }
+                if semi.is_none() && i + 1 == n {
+                    return Ok(Some(env.resolve(e)));
+                }
+                return fail(F, item, format!("a push, a conditional push or a call on the query serializer, found `{}`", canon(e)));
             }
             other => return fail(F, item, format!("a `let` or an expression statement, found `{}`", canon(other))),
         }
     }
     Ok(None)
+}
+
+fn is_vec_new(e: &syn::Expr) -> bool {
+    match strip(e) {
+        syn::Expr::Call(c) if c.args.len() <= 1 => matches!(path_segments(&c.func).as_deref(), Some([.., v, n]) if v == "Vec" && (n == "new" || n == "with_capacity")),
+        syn::Expr::Macro(m) => m.mac.path.is_ident("vec") && m.mac.tokens.is_empty(),
+        _ => false,
+    }
 }
 
 fn url_fn(func: &syn::ImplItemFn) -> R<UrlFn> {
@@ -312,10 +485,10 @@ fn url_fn(func: &syn::ImplItemFn) -> R<UrlFn> {
     if u.url_var.is_none() || ident_of(strip_ref(&t.elems[0])) != u.url_var {
         return fail(F, item, format!("the first component of the result to be the URL under construction, found `{}`", canon(&t.elems[0])));
     }
-    if u.acc.is_none() {
-        return fail(F, item, "a pair vector `let mut <pairs> = vec![..]`");
+    if u.pushes.is_empty() {
+        return fail(F, item, "library parameters pushed to a pair vector or appended to the query serializer");
     }
-    u.state = canon(strip_ref(&t.elems[1]));
+    u.state = canon(&peel(&t.elems[1]));
     Ok(u)
 }
 
@@ -323,7 +496,7 @@ fn url_fn(func: &syn::ImplItemFn) -> R<UrlFn> {
 /// `Cow::from("lit")` → the literal (conversions between string types change types, not text)
 fn lit_conv(e: &syn::Expr) -> Option<String> {
     let e = strip_ref(e);
-    if let Some(l) = str_lit(e) {
+    if let Some(l) = str_lit(e).or_else(|| const_str(e)) {
         return Some(l);
     }
     match e {
@@ -345,7 +518,7 @@ fn rhs(env: &Env, e: &syn::Expr) -> String {
     let r = env.resolve(e);
     match lit_conv(&r) {
         Some(l) => format!("{l:?}"),
-        None => canon(strip_ref(&r)),
+        None => canon(&peel(&r)),
     }
 }
 
@@ -422,7 +595,7 @@ fn setter(func: &syn::ImplItemFn) -> R<Setter> {
                     },
                     syn::Expr::MethodCall(m) if m.args.len() == 1 && (m.method == "push" || m.method == "extend") => match self_field(&m.receiver) {
                         Some(f) => {
-                            let arg = canon(strip_ref(&env.resolve(&m.args[0])));
+                            let arg = rhs(&env, &m.args[0]);
                             effects.push(if m.method == "push" { Effect::Push(f, arg) } else { Effect::Extend(f, arg) });
                         }
                         None => return fail(F, &item, format!("push/extend on a field of self, found `{}`", canon(e))),
@@ -514,23 +687,73 @@ fn strip_fallible(e: &syn::Expr) -> &syn::Expr {
     }
 }
 
+/// the endpoint argument of an entry point, with fallibility dropped and private `&self` helpers of client.rs read in
+/// place: `self.auth_uri()`, `self.auth_uri().ok_or(..)?`, `self.auth_uri_or_missing()?` where the helper's body is
+/// `self.auth_uri().ok_or(..)` or the `match` it abbreviates
+fn endpoint_arg(client: &syn::File, e: &syn::Expr, depth: usize) -> syn::Expr {
+    let e = strip_fallible(e);
+    if depth < 3 {
+        if let syn::Expr::MethodCall(m) = e {
+            if m.args.is_empty() && ident_of(&m.receiver).as_deref() == Some("self") {
+                let name = m.method.to_string();
+                for (_, func) in inherent_fns(client, &name) {
+                    if !matches!(func.vis, syn::Visibility::Inherited) {
+                        continue;
+                    }
+                    if let Some(syn::Stmt::Expr(tail, None)) = func.block.stmts.last() {
+                        if func.block.stmts.len() == 1 {
+                            let inner = match strip(tail) {
+                                syn::Expr::Match(mx) => &*mx.expr,
+                                other => other,
+                            };
+                            return endpoint_arg(client, inner, depth + 1);
+                        }
+                    }
+                }
+            }
+        }
+    }
+    e.clone()
+}
+
 fn entries(client: &syn::File) -> R<Vec<Entry>> {
     let mut v = Vec::new();
     for (_, func) in inherent_fns(client, "authorize_url") {
         let item = "Client::authorize_url";
-        let tail = match func.block.stmts.as_slice() {
-            [syn::Stmt::Expr(e, None)] => e,
-            _ => return fail("client.rs", item, "a single tail expression"),
+        let mut env = Env::default();
+        let arity = rename_params(&mut env, &func.sig);
+        let mut tail: Option<&syn::Expr> = None;
+        let n = func.block.stmts.len();
+        for (i, st) in func.block.stmts.iter().enumerate() {
+            match st {
+                syn::Stmt::Local(l) => match plain_let(l) {
+                    Some((x, false, e)) => env.bind(&x, e),
+                    _ => return fail("client.rs", item, format!("a plain `let`, found `{}`", canon(st))),
+                },
+                syn::Stmt::Expr(e, None) if i + 1 == n => tail = Some(e),
+                other => return fail("client.rs", item, format!("`let`s and a tail expression, found `{}`", canon(other))),
+            }
+        }
+        let mut tail = match tail {
+            Some(t) => env.resolve(t),
+            None => return fail("client.rs", item, "a tail expression"),
         };
-        let (wrapper, inner) = match strip(tail) {
-            syn::Expr::Call(c) if last_segment(&c.func).as_deref() == Some("Ok") && c.args.len() == 1 => ("Ok".to_string(), strip(&c.args[0])),
-            e => (String::new(), e),
+        // private free helper functions of client.rs are read in place
+        {
+            let helpers = helpers_of(client, None, &[]);
+            syn::visit_mut::VisitMut::visit_expr_mut(&mut Inliner { helpers: &helpers, ty: None, depth: 3 }, &mut tail);
+        }
+        let (wrapper, inner) = match strip(&tail) {
+            syn::Expr::Call(c) if last_segment(&c.func).as_deref() == Some("Ok") && c.args.len() == 1 => ("Ok".to_string(), strip(&c.args[0]).clone()),
+            e => (String::new(), e.clone()),
         };
-        match inner {
+        match &inner {
             syn::Expr::MethodCall(m) if m.method == "authorize_url_impl" && ident_of(&m.receiver).as_deref() == Some("self") => {
-                let mut env = Env::default();
-                let arity = rename_params(&mut env, &func.sig);
-                v.push(Entry { wrapper, args: m.args.iter().map(|a| canon(strip_fallible(&env.resolve(a)))).collect(), arity });
+                let mut args: Vec<String> = Vec::new();
+                for (k, a) in m.args.iter().enumerate() {
+                    args.push(if k == 0 { canon(&endpoint_arg(client, a, 0)) } else { canon(strip_fallible(a)) });
+                }
+                v.push(Entry { wrapper, args, arity });
             }
             e => return fail("client.rs", item, format!("`self.authorize_url_impl(..)` [inside Ok(..)], found `{}`", canon(e))),
         }
@@ -620,6 +843,7 @@ deriving DecidableEq, Repr
 
 pub fn extract(srcs: &Sources) -> R<String> {
     let code = srcs.get(F)?;
+    collect_str_consts(code);
     let client = srcs.get("client.rs")?;
     let mut url: Option<UrlFn> = None;
     let mut setters: Vec<Setter> = Vec::new();
